@@ -66,6 +66,11 @@ def check_case(run, case, tier='quick'):
             r = session.run_main(['-r', name, '-s', sn, '-n', str(n)] + fl, max_guesses=total + 1000)
             run.ev('limit_runs')
             exp = Ug[:n]
+            if r.exc is not None and r.guesses == exp:
+                run.violation(f'--limit {n}: main() ended with {r.exc!r} after emitting the right guesses', case, observed=r.stderr[-300:]); return
+            if r.stdout != '' or r.stdout_missing:
+                run.violation(f'--limit {n}: standard output is not exactly the {len(r.guesses)} guesses handed to print_guess (extra text {r.stdout[:80]!r}, {len(r.stdout_missing)} missing)', case,
+                              observed=r.stdout_missing[:5]); return
             if r.guesses != exp or r.exc is not None:
                 k = next((i for i, (a, b) in enumerate(zip(r.guesses, exp)) if a != b), min(len(r.guesses), len(exp)))
                 run.violation(f'--limit {n}: emitted {len(r.guesses)} guesses, expected the first {len(exp)} of the unlimited run (total {total}); first difference at {k}', case,
